@@ -347,6 +347,12 @@ def run_property(pid, units, validate_ops, selftests, bounds, assumptions, uncov
         if r.get('cex'):
             if r['cex']['case'].get('kind') == 'pair':
                 replay_pair(rep, pid, name, r['cex'])
+            elif r['cex']['case'].get('kind') == 'parse':
+                import c08
+                c08.replay_parse(rep, pid, name, r['cex'])
+            elif r['cex']['case'].get('kind') in ('token', 'tokenids'):
+                import tokencore
+                tokencore.replay_token(rep, pid, name, r['cex'])
             elif r['cex']['case'].get('kind') == 'set':
                 import c19
                 case = r['cex']['case']
